@@ -232,15 +232,14 @@ func (r *Reader) eachByte(b byte) {
 			if r.HandleSysex && r.sysexlen < len(r.sysexBf) {
 				r.sysexBf[r.sysexlen] = b
 				r.sysexlen++
-				//go
-				func(bb []byte, l int) {
-					var _bt = make([]byte, l)
-
-					for i := 0; i < l; i++ {
-						_bt[i] = bb[i]
-					}
-					r.OnMsg(_bt, r.sysexTS)
-				}(r.sysexBf, r.sysexlen)
+				var _bt = make([]byte, r.sysexlen)
+				copy(_bt, r.sysexBf[:r.sysexlen])
+				// done with this sysex before the callback runs: the callback may feed the reader again
+				// (a reply on a loopback) and the sysex it starts must survive the return of the callback
+				r.sysexBf = nil
+				r.sysexlen = 0
+				r.OnMsg(_bt, r.sysexTS)
+				return
 			}
 			r.sysexBf = nil
 			r.sysexlen = 0
